@@ -373,6 +373,9 @@ func (fx *FnExec) callHavoc(in ssa.Instruction, c *ssa.CallCommon, args []Val, r
 	for _, m := range mods {
 		fx.havocHeap(m)
 	}
+	for _, gname := range fx.W.callGhostHavoc(c, nil) {
+		fx.havocGhost(gname)
+	}
 	name := "call"
 	if f := c.StaticCallee(); f != nil {
 		name = sanitize(f.Name())
@@ -485,7 +488,11 @@ func (fx *FnExec) callWithContract(in ssa.Instruction, c *ssa.CallCommon, ct *Co
 		}
 		fx.assume(t.S)
 	}
-	// ghost updates performed by the callee
+	// ghost updates performed by the callee: declared ones below; a ghost the callee may assign
+	// without declaring its new value is arbitrary afterwards
+	for _, gname := range fx.W.callGhostHavoc(c, ct) {
+		fx.havocGhost(gname)
+	}
 	for _, gname := range sortedKeys(ct.GhostSet) {
 		g := fx.W.Contracts.ghost(gname)
 		if g == nil {
@@ -568,8 +575,18 @@ func (fx *FnExec) execBuiltin(in ssa.Instruction, b *ssa.Builtin, c *ssa.CallCom
 		fx.frameCheck(in, name, "(s.arr "+dst+")", "copy into slice")
 		h := fx.heapArr(name, sort)
 		na := fx.havoc("copied", "(Array Int "+fx.sortOf(st.Elem())+")")
+		cn := fx.define("copyn", "Int", "(imin (s.len "+dst+") "+srcLen+")")
+		if _, isSlice := c.Args[1].Type().Underlying().(*types.Slice); isSlice {
+			// exact (memmove semantics: the source is read in the state before the copy)
+			fx.assume(fmt.Sprintf("(forall ((k Int)) (= (select %s k) (ite (and (<= (s.off %s) k) (< k (+ (s.off %s) %s))) (select (select %s (s.arr %s)) (+ (s.off %s) (- k (s.off %s)))) (select (select %s (s.arr %s)) k))))",
+				na, dst, dst, cn, h, src, src, dst, h, dst))
+		} else {
+			// bytes of a string: elements outside the copied range keep their values
+			fx.assume(fmt.Sprintf("(forall ((k Int)) (=> (not (and (<= (s.off %s) k) (< k (+ (s.off %s) %s)))) (= (select %s k) (select (select %s (s.arr %s)) k))))",
+				dst, dst, cn, na, h, dst))
+		}
 		fx.setHeap(name, sort, "(store "+h+" (s.arr "+dst+") "+na+")")
-		setRes(Val{S: fx.define("copyn", "Int", "(imin (s.len "+dst+") "+srcLen+")")})
+		setRes(Val{S: cn})
 	case "delete":
 		m, k := fx.term(args[0]), fx.term(args[1])
 		mt := c.Args[0].Type().Underlying().(*types.Map)
@@ -962,4 +979,15 @@ func (fx *FnExec) atCallAsserts(in ssa.Instruction, c *ssa.CallCommon, args []Va
 		o := fx.oblige("atcall", t, in, fmt.Sprintf("at the call of %s (#%d): %s", ac.Callee, k+1, ac.Expr.Text))
 		o.Props = ac.Expr.Props
 	}
+}
+
+// havocGhost makes a ghost variable arbitrary (only if the function has touched or will touch it:
+// ghosts are declared lazily).
+func (fx *FnExec) havocGhost(gname string) {
+	g := fx.W.Contracts.ghost(gname)
+	if g == nil {
+		return
+	}
+	fx.ghostVal(fx.cur.gh, gname) // make sure the entry value exists before it is overwritten
+	fx.cur.gh[gname] = fx.havoc("gh_"+gname+"_hv", g.Sort)
 }
